@@ -3,6 +3,8 @@ import PSO.Proofs.BridgeAck
 import PSO.Proofs.BridgeSend
 import PSO.Proofs.BridgeSendCut
 import PSO.Proofs.BridgeKeys
+import PSO.Proofs.BridgeFollower
+import PSO.Proofs.BridgeLeader
 
 /-!
 # Bridge theorems: handler model ⊑ protocol model
@@ -18,7 +20,9 @@ state holds `absNode` of the handler's result at `n`, no other node changes, and
 by exactly the handler's outputs read as model messages (`absOuts`)*.
 
 Files: `BridgeAbs` (abstraction, node-level readings of `step`), `BridgeVote`, `BridgeTick`, `BridgeAck`,
-`BridgeSend`, `BridgeSendCut` (node-level lemmas), `BridgeKeys` (`KeysTracked` and `WFLog` are invariants of
+`BridgeSend`, `BridgeSendCut` (node-level lemmas), `BridgeFollower` (`append_entries` handler ⊑ `recvAppend`:
+`appendEntries_refines`, `appendEntries_chunk_refines`, `appendEntries_finish_refines`), `BridgeLeader` (queue dispatch ⊑
+`clientAppend`: `leaderDispatch_refines`, `dispatch_idle_abs`), `BridgeKeys` (`KeysTracked` and `WFLog` are invariants of
 `PSO.NodeTick.step`: `step_keysTracked`, `step_wfLog`).  Final statements, examples and the three
 hypothesis-is-needed findings are below.
 
@@ -558,6 +562,91 @@ example : ∃ S', Raft.step 1 (exState exSingle []) (.timeout 0 exSingle.others)
 
 example : (electionPhase exCfg exSingle 6000 0).1.role = .leader ∧
     (electionPhase exCfg exSingle 6000 0).1.log = exLog ++ [⟨.noop, 4, 3⟩] := by decide
+
+/-! ### 7. follower side of `append_entries` (`BridgeFollower.lean`) -/
+
+/-- follower 1 of 3: journal `exLogS` (indices 1..3, terms 0, 1, 1), term 1, commit 1 -/
+def exFollowerS : NodeSend.Node :=
+  { self := some 1, role := .follower, term := 1, leader := some 0, log := exLogS, commit := 1, lastApplied := 1,
+    members := [0, 2] }
+
+def exExtra : NodeSend.Extra := { votedFor := none, votes := 0 }
+
+def exE4 : NodeSend.Entry := ⟨⟨.regular, 3, 10, 54⟩, 4, 1⟩
+def exE2' : NodeSend.Entry := ⟨⟨.regular, 9, 10, 54⟩, 2, 2⟩
+
+/-- what the examples look at: journal (index, term), commit, term, role is follower, model messages of the outputs -/
+def exView (r : NodeSend.Extra × NodeSend.Node × Except NodeSend.Err (List NodeSend.Out)) :
+    List (Nat × Nat) × Nat × Nat × List Raft.Msg :=
+  match r with
+  | (_, s', .ok outs) => (s'.log.map (fun e => (e.idx, e.term)), s'.commit, s'.term, absOutsS 1 outs)
+  | (_, _, .error _) => ([], 0, 0, [])
+
+def exStateS : Raft.State :=
+  { nodes := fun _ => absNodeS [] exExtra exFollowerS, msgs := [.append 1 0 1 (3 - 1) 1 (absLogS [exE4]) (3 - 1)] }
+
+/-- extend: prev = (3, term 1), one new entry, leader commit 3: log 1..4, commit 1 → 3, `ack … 3`. -/
+example := appendEntries_refines {} rfl exExtra exFollowerS 0 1 3 [] rfl (by simp [exFollowerS, exLogS]) exLogS_wf.idx
+    3 1 [exE4] (by decide) (by decide) 3 1 exStateS rfl (by decide)
+
+example : exView (NodeSend.appendEntriesEnv {} exExtra exFollowerS 0 1 3 { prev := some (3, 1), entries := [exE4] }) =
+    ([(1, 0), (2, 1), (3, 1), (4, 1)], 3, 1, [.ack 1 1 0 3]) := by decide
+
+/-- heartbeat (no entries) of a higher term 2: term adopted, commit 1 → 2, `ack 2 1 0 2`. -/
+example : exView (NodeSend.appendEntriesEnv {} exExtra exFollowerS 0 2 2 { prev := some (3, 1), entries := [] }) =
+    ([(1, 0), (2, 1), (3, 1)], 2, 2, [.ack 2 1 0 2]) := by decide
+
+/-- duplicate delivery (entries 2, 3 already present): journal unchanged, acknowledged again. -/
+example : exView (NodeSend.appendEntriesEnv {} exExtra exFollowerS 0 1 1
+      { prev := some (1, 0), entries := [exLogS[1], exLogS[2]] }) =
+    ([(1, 0), (2, 1), (3, 1)], 1, 1, [.ack 1 1 0 2]) := by decide
+
+/-- conflict: entry 2 of term 2 replaces entries 2, 3 of term 1 (truncate + append). -/
+example : exView (NodeSend.appendEntriesEnv {} exExtra exFollowerS 0 2 1 { prev := some (1, 0), entries := [exE2'] }) =
+    ([(1, 0), (2, 2)], 1, 2, [.ack 2 1 0 1]) := by decide
+
+/-- prev term mismatch / prev missing / stale term: journal and commit unchanged, no model message
+(term adopted in the first two, nothing at all for the stale message). -/
+example : exView (NodeSend.appendEntriesEnv {} exExtra exFollowerS 0 2 3 { prev := some (3, 5), entries := [exE4] }) =
+      ([(1, 0), (2, 1), (3, 1)], 1, 2, []) ∧
+    exView (NodeSend.appendEntriesEnv {} exExtra exFollowerS 0 2 3 { prev := some (7, 1), entries := [exE4] }) =
+      ([(1, 0), (2, 1), (3, 1)], 1, 2, []) ∧
+    exView (NodeSend.appendEntriesEnv {} exExtra exFollowerS 0 0 3 { prev := some (3, 1), entries := [exE4] }) =
+      ([(1, 0), (2, 1), (3, 1)], 1, 1, []) := by decide
+
+/-- a chunk burst for `exE4` (batch 20 < pickled length 64): `start`/`process` chunks = `observeTerm`, the `finish`
+chunk = ONE `recvAppend` with the entry: journal 1..4 at the end. -/
+example : (match NodeSend.followerRun {} 0 exFollowerS
+      (NodeSend.render 20 1 3 (.chunked (some (3, 1)) exE4)) with
+    | .ok (s', o) => (s'.log.map (fun e => (e.idx, e.term)), absOutsS 1 o)
+    | .error _ => ([], [])) = ([(1, 0), (2, 1), (3, 1), (4, 1)], [.ack 1 1 0 3]) := by decide
+
+example := appendEntries_chunk_refines {} exExtra exFollowerS 0 1 3 [] (by simp [exFollowerS, exLogS]) exLogS_wf.idx
+    (some (3, 1)) .start (NodeSend.slice (NodeSend.pickleEntry exE4) 0 20) _ rfl (by decide) 3 1
+    { nodes := fun _ => absNodeS [] exExtra exFollowerS } rfl
+
+/-! ### 8. queue dispatch of a leader (`BridgeLeader.lean`) -/
+
+def exLeaderS : NodeSend.Node :=
+  { self := some 0, role := .leader, term := 1, leader := some 0, log := exLogS, commit := 1, lastApplied := 1,
+    members := [1, 2], noopIdx := some 2 }
+
+/-- a regular command with a local callback is accepted: entry (4, term 1) appended = `clientAppend 0 7`. -/
+example : (match NodeSend.leaderDispatch {} exLeaderS ⟨.regular, 7, 10, 54⟩ (.loc 41) with
+    | .ok (s', _, _) => s'.log.map (fun e => (e.idx, e.term, e.cmd.id))
+    | .error _ => []) = [(1, 0, 0), (2, 1, 1), (3, 1, 2), (4, 1, 7)] := by decide
+
+example : ∀ s' o br, NodeSend.leaderDispatch {} exLeaderS ⟨.regular, 7, 10, 54⟩ (.loc 41) = .ok (s', o, br) →
+    br ≠ .denied ∧ ∃ S', Raft.step 3 { nodes := fun _ => absNodeS [] exExtra exLeaderS } (.clientAppend 0 7) = some S' ∧
+      S'.nodes 0 = absNodeS [] exExtra s' ∧
+      (∀ k, k ≠ 0 → S'.nodes k = ({ nodes := fun _ => absNodeS [] exExtra exLeaderS } : Raft.State).nodes k) ∧
+      S'.msgs = ({ nodes := fun _ => absNodeS [] exExtra exLeaderS } : Raft.State).msgs :=
+  fun s' o br h => leaderDispatch_refines {} [] exExtra exLeaderS s' ⟨.regular, 7, 10, 54⟩ (.loc 41) o br
+    (Or.inl rfl) rfl 3 0 _ (by decide) rfl h
+
+/-- a follower forwards the command: abstraction unchanged. -/
+example : absNodeS [] exExtra (NodeSend.followerDispatch exFollowerS ⟨.regular, 7, 10, 54⟩ (.loc 41)).1 =
+    absNodeS [] exExtra exFollowerS := followerDispatch_abs [] exExtra exFollowerS _ _
 
 end Examples
 
